@@ -379,6 +379,8 @@ class Render:
                 return "1", g
             if kind == "const0":
                 return "0", g
+            if kind == "doc":
+                return '"""doc"""', g
             if kind == "call":
                 return "%s(%s)" % (self.atom(es[0], py[0]), ", ".join(py[1:])), g
             if kind == "add":
